@@ -86,6 +86,12 @@ def random_scenario(rng: random.Random, nsims=(2, 4), nconns=(1, 5), until=(2, 4
         scn["order"] = order
     if not scn.get("multipair") and rng.random() < 0.12:
         scn["connect_one"] = True  # single-pair connections are made with World.connect_one instead of World.connect
+    if rng.random() < 0.12 and not any(c.get("async") for c in conns):
+        # entity ids with unusual characters (dots, %, blanks, ...): the simulators' create() returns them with this suffix
+        sfx = rng.choice([".x", "%d", " e", "-1", "/a", ".0.1"])
+        scn["eid_suffix"] = sfx
+        for c in conns:
+            c["se"], c["de"] = c["se"] + sfx, c["de"] + sfx
     scn = S.normalize(scn)
     if rng.random() < 0.12:
         scn = S.rename_sids(scn)  # simulator ids with unusual characters
